@@ -4,20 +4,25 @@ Import ListNotations.
 Open Scope N_scope.
 
 (* ---------------------------------------------------------------- body limit *)
-Fixpoint body_upto (msgs : list rmsg) : bytes :=
+Fixpoint body_upto (msgs : list (option rmsg)) : bytes :=
   match msgs with
   | [] => []
-  | (b, more) :: r => if more then b ++ body_upto r else b
+  | None :: _ => []
+  | Some (b, more) :: r => if more then b ++ body_upto r else b
   end.
-Fixpoint ends (msgs : list rmsg) : bool :=
-  match msgs with [] => false | (_, more) :: r => negb more || ends r end.
+(* the final body message arrives, and no disconnect before it *)
+Fixpoint ends (msgs : list (option rmsg)) : bool :=
+  match msgs with [] => false | None :: _ => false | Some (_, more) :: r => negb more || ends r end.
+(* the client leaves before the body is complete *)
+Fixpoint leaves (msgs : list (option rmsg)) : bool :=
+  match msgs with [] => false | None :: _ => true | Some (_, more) :: r => more && leaves r end.
 
 
 Lemma accumulate_spec max : forall msgs acc, ends msgs = true ->
   accumulate max acc msgs =
   if (Zlen (acc ++ body_upto msgs) >? max)%Z then TooLarge else Complete (acc ++ body_upto msgs).
 Proof.
-  induction msgs as [|[b more] r IH]; intros acc E; simpl in *; [discriminate|].
+  induction msgs as [|[[b more]|] r IH]; intros acc E; simpl in *; [discriminate| |discriminate].
   destruct more; simpl in E.
   - rewrite app_assoc.
     destruct (Zlen (acc ++ b) >? max)%Z eqn:G.
@@ -25,6 +30,20 @@ Proof.
       rewrite Zlen_app. pose proof (Zlen_nonneg (body_upto r)). lia.
     + apply IH. exact E.
   - destruct (Zlen (acc ++ b) >? max)%Z; reflexivity.
+Qed.
+
+(* a client that leaves mid-body: the application is not called (finding F59), whatever had arrived; the only thing
+   that can still be said is the 400 for a body already over the limit *)
+Lemma disconnect_never_calls max : forall msgs acc, leaves msgs = true ->
+  accumulate max acc msgs = Gone \/ accumulate max acc msgs = TooLarge.
+Proof.
+  induction msgs as [|[[b more]|] r IH]; intros acc E; simpl in *; [discriminate| |left; reflexivity].
+  destruct more; simpl in E; [|discriminate].
+  destruct (Zlen (acc ++ b) >? max)%Z; [right; reflexivity|apply IH; exact E].
+Qed.
+Lemma disconnect_not_served max msgs sc a : leaves msgs = true -> rr_called (handle_http max msgs sc a) = 0%nat.
+Proof.
+  intro E. unfold handle_http. destruct (disconnect_never_calls max msgs [] E) as [-> | ->]; reflexivity.
 Qed.
 
 (* the application is called exactly once iff the complete body fits, never for a larger one *)
